@@ -24,7 +24,10 @@ def _copy(src, fn, new, pre=None, twin=False):
 def replay_a(q, args, kwargs):
     h = runner.load_module(HA, 'h_c12a_native')
     fn = q.meta['fn']
-    line = args[-1] if fn == 'prefix_len' else 'from ' + args[0]
+    if fn == 'prefix_enum':
+        line = h.enum_line(args[0], list(args[1:]))
+    else:
+        line = args[-1] if fn == 'prefix_len' else 'from ' + args[0]
     got = h.run(line)
     want = h.ref_prefix(line)
     if got == want:
@@ -81,6 +84,10 @@ def run(tier, seed):
         new = 'prefix_from_%d' % n
         qs.append(Query(new, sa + '\n\n' + _copy(sa, 'prefix_from', new, 'len(tail) == %d' % n), new, 'main',
                         200 if tier == 'quick' else 500, per_path=60, meta={'fn': 'prefix_from', 'h': 'a'}, label='S'))
+    for n in range(0, (3 if tier == 'quick' else 4) + 1):
+        new = 'prefix_enum_%d' % n
+        qs.append(Query(new, sa + '\n\n' + _copy(sa, 'prefix_enum', new, 'n == %d' % n), new, 'main', 300 if tier == 'quick' else 1500,
+                        per_path=60, meta={'fn': 'prefix_enum', 'h': 'a'}, label='E'))
     qs.append(Query('prefix__twin', sa + '\n\n' + _copy(sa, 'prefix_len', 'prefix__twin', 'n == 2', twin=True),
                     'prefix__twin', 'twin', 60, meta={'h': 'a'}))
     nc = hb.NCASES
@@ -99,6 +106,7 @@ def run(tier, seed):
                      'Flow.names_at', 'EvalCtx.evaluate', 'Object.attr_list']
     rep.bounds = ['(a) S: the text left of the cursor is ANY string of length <= %d (all of Unicode), plus "from " + any tail of length <= %d'
                   % (maxlen, 3 if tier == 'quick' else 4),
+                  '(a) E companion: every line of length <= %d over the 10 characters a 1 _ e-acute sharp-s Omega space . ( # (concrete strings, no string theory involved)' % (3 if tier == 'quick' else 4),
                   '(b),(c) E: %d programs (family shapes under 2 namings + 6 attribute/import programs over 5 project modules), '
                   'every name read / attribute / import name, every cursor offset 1..len inside and at the end' % nc]
     rep.assumptions = ['(a): supp.assistant.Source replaced by an object holding the symbolic line and an empty Module tree (the prefix does not depend on the tree); project stubbed',
